@@ -17,6 +17,7 @@ from pyvc import aio
 FR = 'rsocket/frame.py::'
 H = 'rsocket/handlers/'
 EMIT = ('send_frame', 'send_request', 'send_payload', 'send_error', 'send_complete')
+K_SOCK = EMIT + ('finish_stream', 'get_fragment_size_bytes')
 
 
 class Ctx:
@@ -33,6 +34,10 @@ class Ctx:
         ctx = self
 
         def hook(E_, obj, method, args, kwargs):
+            if obj is ctx.sock and method not in K_SOCK:
+                # the handler contracts know the socket only through K-SOCK (DESIGN 5, shared contract sets); an operation
+                # outside it has no contract here, so nothing can be concluded about what it does to the connection
+                raise Unsupported('handler calls socket.%s(), which has no K-SOCK contract (contracts out of date)' % method)
             r = OpaqueLog.__call__(ctx.log, E_, obj, method, args, kwargs)
             if ctx.reenter is not None and obj.kind in ('subscriber',) and ctx._in_app == 0:
                 ctx._in_app += 1
